@@ -198,6 +198,31 @@ def _nt_merge(shapes):
     return bool(avals & bvals)
 
 
+HUGE = ((100000, 1), (100000, 3), (0, 7), (36500, 999999), (1, 0))  # (days, microseconds): sums beyond what float seconds carry exactly
+
+
+def check_huge(emb, durs):
+    """durations add up EXACTLY (timedelta arithmetic), also when they are far beyond what float seconds can
+    carry to the microsecond (seeded: chunk duration recomputed through the float-based sum_durations)"""
+    from datetime import timedelta
+
+    probs = []
+    evs = [emb.ev(i, 0, {"k": "v", "i": i}) for i in range(len(durs))]
+    for e, (days, us) in zip(evs, durs):
+        e.duration = timedelta(days=days, microseconds=us)
+    total = sum((e.duration for e in evs), timedelta())
+    try:
+        ch = chunk_events_by_key(evs, "k")
+        if len(ch) != 1 or ch[0].duration != total:
+            probs.append(("chunk-duration-not-sum", f"durations {durs} (days, us): chunks {[str(c.duration) for c in ch]}, exact sum {total}"))
+        mg = merge_events_by_keys(evs, ["k"])
+        if len(mg) != 1 or mg[0].duration != total:
+            probs.append(("merge-total-duration-not-conserved", f"durations {durs} (days, us): merged {[str(c.duration) for c in mg]}, exact sum {total}"))
+    except Exception as e:
+        probs.append(("huge-raised", f"{type(e).__name__}: {e}"))
+    return probs
+
+
 def _unit(args):
     kind, items = args
     ctx = _G["ctx"]
@@ -205,6 +230,13 @@ def _unit(args):
     u = Unit()
     for it in items:
         u.states += 1
+        if kind == "huge":
+            u.evaluations += 2
+            u.transitions += 2
+            u.nontrivial += 1
+            for sym, det in check_huge(emb, it)[:1]:
+                u.violation(f"{'chunk_events_by_key' if sym.startswith('chunk') else 'merge_events_by_keys'}:{sym}", det, {"fn": "huge", "durs": [list(x) for x in it]}, size=len(it))
+            continue
         if kind == "merge":
             if _nt_merge(it):
                 u.nontrivial += 1
@@ -269,7 +301,8 @@ def _space(ctx):
     sort = [t for k in range(0, sn + 1) for t in itertools.product(skinds, repeat=k)]
     fn = 4 if ctx.thorough else 3
     filt = [t for k in range(0, fn + 1) for t in itertools.product(FVALS, repeat=k)]
-    return {"merge": merge, "chunk": chunk, "sort": sort, "filter": filt}
+    huge = [t for k in (1, 2, 3) for t in itertools.product(HUGE, repeat=k)]
+    return {"merge": merge, "chunk": chunk, "sort": sort, "filter": filt, "huge": huge}
 
 
 def run(ctx):
@@ -288,6 +321,14 @@ def run(ctx):
 
 
 def run_case(ctx, case):
+    if case.get("fn") == "huge":
+        _G["ctx"] = ctx
+        probs = check_huge(Emb(ctx.base, 1_000_000), [tuple(x) for x in case["durs"]])
+        return {"violations": [list(p) for p in probs]}
+    return _run_case(ctx, case)
+
+
+def _run_case(ctx, case):
     _G["ctx"] = ctx
     emb = Emb(ctx.base, 1_000_000)
     fn = case["fn"]
